@@ -3,7 +3,8 @@
    the logical trie a root resolves to is `open_root`.  That a committed hash is the canonical Merkle-Patricia root
    of the resolved content is C06's trie_canonical (Properties/C06.v), restated here as root_is_mpt. *)
 From Coq Require Import List NArith Bool Arith Lia.
-From Verif Require Import Trie.Model Trie.Keys Trie.ProofsWf Trie.Theorems Store.Model Store.Proofs Store.ProofsCommit.
+From Verif Require Import Trie.Model Trie.Keys Trie.ProofsWf Trie.Theorems Store.Model Store.Proofs Store.ProofsCommit
+  Store.ProofsReach Store.ProofsPrune Store.ProofsLink Store.ExamplesPrune.
 Import ListNotations.
 Open Scope N_scope.
 
@@ -47,31 +48,83 @@ Section C12.
   Proof. exact (expand_Res V f (sget V s name) [] (SRef v) t). Qed.
 
   (* ---- pruning ---- *)
-  (* full statement (not proved): after checkpointing root (target-1) of the pruned chain and deleting [base,target),
-     every root with major >= target that descends from block target-1 resolves to the same trie *)
-  Definition prune_preserves_recent_statement : Prop :=
-    forall f (s : store V) cps base target name v t,
-      0 < hf V s -> base mod hf V s = 0 -> target mod hf V s = 0 -> target <= fst v ->
-      (* cps are the checkpoints of the tries of root (target-1), v descends from it *)
-      open_root V f s name v = Some t ->
-      open_root V f (prune V s cps base target) name v = Some t.
+  (* The life of one trie (`History name s chain P`, Store/ProofsLink.v): canonical commits — hasher.store (wstore) at a
+     version fresh in the hist space, major above the head's, on a working trie all of whose clean nodes and references
+     are nodes of the head root (`derived`: the handle was opened at the head root and edited) —, any other commit (another
+     trie; a fork of this one at a fresh version not below the pruned mark P), and pruner rounds [base, target) with
+     HistPtnFactor | base, HistPtnFactor | target, P <= base <= target, whose checkpoint of this trie is what the
+     version-filtered iterator (iter_nodes, minVer = (base,0)) reports on the newest canonical root below target.
+     `chain` lists the live canonical roots, newest first, with the trie each commit denoted; after a round:
+     the roots at or above target and — for a storage trie, whose root may be fetched from the deduped space — the
+     checkpointed root itself (live_after). *)
+
+  (* prune_preserves_recent, one round: every live root resolves, for every sufficient fuel, to the trie its commit
+     denoted both before and after checkpoint + delete *)
+  Theorem prune_preserves_recent name (s : store V) newer anchor older P base target cps f nodes v t :
+    History V name s (newer ++ anchor :: older) P ->
+    P <= base -> base <= target -> base mod hf V s = 0 -> target mod hf V s = 0 ->
+    Forall (fun vt => target <= fst (fst vt)) newer -> fst (fst anchor) < target ->
+    checkpoint_nodes V f s name (fst anchor) base = Some nodes ->
+    cps_for V name cps nodes ->
+    In (v, t) (live_after V name newer anchor) ->
+    exists f0, forall f', (f0 <= f')%nat ->
+      open_root V f' s name v = Some t /\ open_root V f' (prune V s cps base target) name v = Some t.
+  Proof. exact (prune_round_preserves_open V name s newer anchor older P base target cps f nodes v t). Qed.
+
+  (* prune_preserves_recent over whole histories (any number of rounds, commits and forks in between): every live
+     canonical root resolves to exactly the trie its commit denoted *)
+  Theorem prune_preserves_recent_rounds name (s : store V) chain P v t :
+    History V name s chain P -> In (v, t) chain ->
+    Res V (sget V s name) [] (SRef v) t /\ exists f0, forall f, (f0 <= f)%nat -> open_root V f s name v = Some t.
+  Proof.
+    intros H I. split; [exact (history_roots_resolve V name s chain P v t H I)|exact (history_roots_open V name s chain P v t H I)].
+  Qed.
+
+  (* the invariant behind it (Store/ProofsPrune.v Inv): every live root resolves; the nodes it follows are well-formed
+     blobs whose versions do not increase downwards, those at or above P are in the hist space; a node followed from a
+     root was written by that root's commit or is followed from its parent *)
+  Theorem history_invariant name (s : store V) chain P : History V name s chain P -> Inv V s name chain P.
+  Proof. exact (History_Inv V name s chain P). Qed.
+
+  (* the version-filtered iterator (trie/iterator.go with minVer, Store/Model.v iter_nodes): it reports exactly the
+     standalone nodes reachable from the start through nodes none of which compares below min *)
+  Theorem checkpoint_iterator_spec (g : list nat -> ver -> option (snode V)) min f p n l :
+    iter_nodes V f g min p n = Some l ->
+    forall q w b, In (q, w, b) l <-> ReachMin V g min p n q w b.
+  Proof. exact (iter_nodes_spec V g min f p n l). Qed.
+
+  (* what hasher.store writes links the new root to its parent: a node the new root follows is one of the commit's own
+     entries (a well-formed blob) or a node the parent root follows; and the new root reads back — with freshness
+     required in the hist space only (valid after pruner rounds, unlike commit_reads_back's premise) *)
+  Theorem commit_links_to_parent (s : store V) name chain P newv big skip n t :
+    Inv V s name chain P -> hist_fresh V s name newv -> P <= fst newv ->
+    match chain with [] => True | vt :: _ => fst (fst vt) < fst newv end ->
+    Coh V (sget V s name) [] n -> WRes V (sget V s name) [] n t -> is_inner V n ->
+    derived V (sget V s name) chain n ->
+    let es := snd (wstore V big skip newv [] n) in
+    link_cond V s name chain newv es /\ Res V (sget V (commit V s name newv es) name) [] (SRef newv) t.
+  Proof. exact (wstore_links V s name chain P newv big skip n t). Qed.
+
+  (* commit_preserves_roots after pruning (the premise of commit_preserves_roots — the reader is silent at the new
+     version — no longer holds once the deduped space answers for a path): any commit of another trie, or of this trie at
+     a version fresh in the hist space and not below the pruned mark, keeps the invariant, hence every live root *)
+  Theorem commit_preserves_roots_pruned (s : store V) name chain P name' v' es :
+    Inv V s name chain P -> name' <> name \/ (hist_fresh V s name v' /\ P <= fst v') ->
+    Inv V (commit V s name' v' es) name chain P.
+  Proof. exact (Inv_other_commit V s name chain P name' v' es). Qed.
 
   (* proved, conditional on the reachability lemma: if every reference followed while resolving a root survives the
      round — its node is stored at a version outside the deleted partitions, or the deduped space holds exactly its
      blob under its path after the checkpoints (and it is not an account/index root) — the root resolves to the
-     same trie after checkpoint + delete.  What is NOT proved is that the real checkpoint (iterator over root
-     target-1 with the version filter) establishes `survives` for every root >= target descending from block target-1;
-     that needs the history of the chain (a node older than target referenced from a later root is the node at that
-     path in root target-1). *)
+     same trie after checkpoint + delete.  (One round from an unpruned store; prune_preserves_recent above discharges
+     the premise from the history of the chain and covers repeated rounds.) *)
   Theorem prune_preserves_recent_cond (s : store V) cps base target name p n t :
     ResC V (survives V s cps base target name) (sget V s name) p n t ->
     Res V (sget V (prune V s cps base target) name) p n t.
   Proof. exact (prune_preserves_resolution V s cps base target name p n t). Qed.
 
-  (* proved part 1: with an aligned target, every node written at a version >= target is still served from the
-     hist space, unchanged (whatever was checkpointed); what is missing for the full statement is the reachability
-     lemma "a node with version < target referenced from a root >= target is the node at the same path in
-     root (target-1)", which makes the deduped copy the right one *)
+  (* with an aligned target, every node written at a version >= target is still served from the hist space,
+     unchanged (whatever was checkpointed) *)
   Theorem prune_preserves_recent_partial (s : store V) cps base target name p v :
     0 < hf V s -> target mod hf V s = 0 -> target <= fst v ->
     hist_find V (hist V (prune V s cps base target)) name p v = hist_find V (hist V s) name p v.
@@ -79,12 +132,27 @@ Section C12.
     intros Hf Ha Hv. apply prune_keeps_hist_outside. apply aligned_recent_outside; auto.
   Qed.
 
-  (* proved part 2 (never_silently_different for the account and index tries): a root in the deleted partitions
-     fails; the deduped space is never consulted for it *)
+  (* ---- never silently different ----
+     account and index tries: a root in the deleted partitions fails; the deduped space is never consulted for it *)
   Theorem pruned_root_fails_partial (s : store V) cps base target name v :
     root_only name = true -> in_deleted V s base target v = true ->
     sget V (prune V s cps base target) name [] v = None.
   Proof. exact (pruned_root_fails V s cps base target name v). Qed.
+
+  (* ... and it stays failed: neither a further round nor a commit of another trie / version brings it back *)
+  Theorem pruned_root_stays_failed_prune (s : store V) cps base target name v :
+    root_only name = true -> sget V s name [] v = None -> sget V (prune V s cps base target) name [] v = None.
+  Proof. exact (failed_root_prune V s cps base target name v). Qed.
+  Theorem pruned_root_stays_failed_commit (s : store V) name' v' es name v :
+    sget V s name [] v = None -> name' <> name \/ v <> v' -> sget V (commit V s name' v' es) name [] v = None.
+  Proof. exact (failed_root_commit V s name' v' es name v). Qed.
+
+  (* storage below the target: a storage trie is only opened through the account trie of its block; that read fails
+     whatever the deduped space holds for the storage trie *)
+  Theorem pruned_state_fails_partial f (s : store V) cps base target acc_ver sname sver :
+    in_deleted V s base target acc_ver = true ->
+    read_through_account V f (prune V s cps base target) acc_ver sname sver = None.
+  Proof. exact (pruned_state_fails V f s cps base target acc_ver sname sver). Qed.
 
   (* the committed hash is the canonical root of the resolved content: two well-formed tries with the same
      content are the same tree (so any hash of the tree is a function of the key/value set) *)
@@ -118,11 +186,45 @@ Proof. split; vm_compute; reflexivity. Qed.
 Example ex_deleted : root_only 0 = true /\ in_deleted nat ex_store 0 4 (3, 0) = true.
 Proof. split; vm_compute; reflexivity. Qed.
 
+(* never_silently_different over ALL roots of a trie (canonical or not) is refuted in the model — finding F8: a block
+   at or above the target on a fork that left the canonical chain below block target-1 keeps its hist root, follows a
+   reference whose hist node was deleted, and is answered from the deduped space with the canonical node of that path
+   (Store/ExamplesPrune.v: block 2' = version (2,1), round [0,2)).  Canonical live roots: prune_preserves_recent;
+   account/index roots in deleted partitions: pruned_root_fails_partial. *)
+Theorem prune_dead_fork_refuted : ~ never_silently_different_statement nat.
+Proof. exact never_silently_different_refuted. Qed.
+
+(* non-vacuity of the History theorems: four canonical blocks, a two-block dead fork, HistPtnFactor 2, round [0,2)
+   (checkpoint of block 1: two nodes), then blocks 4, 5 and a second round [2,4) *)
+Example ex_history_round1 : History nat 0 xs7 [(v3, xt3); (v2, xt2)] 2.
+Proof. exact xH7. Qed.
+Example ex_history_round2 : History nat 0 xs10 [(v5, xt5); (v4, xt4)] 4.
+Proof. exact xH10. Qed.
+Example ex_round1_reads : open_root nat 10 xs7 0 v2 = Some xt2 /\ hist_find nat (hist nat xs7) 0 [1%nat] v0 = None.
+Proof. exact x_block2_after. Qed.
+Example ex_round2_reads : map (fun e => fst e) xnodes2 = [([], v3); ([1%nat], v3)] /\
+  open_root nat 10 xs10 0 v4 = Some xt4 /\ open_root nat 10 xs10 0 v5 = Some xt5 /\
+  open_root nat 10 xs10 0 v2 = None /\ open_root nat 10 xs10 0 w2 = None.
+Proof. exact x_round2. Qed.
+Example ex_dead_fork : open_root nat 10 xs6 0 w2 = Some xtf2 /\ open_root nat 10 xs7 0 w2 = Some xtf2' /\ xtf2 <> xtf2'.
+Proof. exact (conj x_fork_before (conj x_fork_after x_fork_differs)). Qed.
+
 Print Assumptions commit_preserves_roots.
 Print Assumptions resolve_independent_of_cache.
 Print Assumptions commit_reads_back.
 Print Assumptions open_root_resolves.
+Print Assumptions prune_preserves_recent.
+Print Assumptions prune_preserves_recent_rounds.
+Print Assumptions history_invariant.
+Print Assumptions checkpoint_iterator_spec.
+Print Assumptions commit_links_to_parent.
+Print Assumptions commit_preserves_roots_pruned.
 Print Assumptions prune_preserves_recent_cond.
 Print Assumptions prune_preserves_recent_partial.
 Print Assumptions pruned_root_fails_partial.
+Print Assumptions pruned_root_stays_failed_prune.
+Print Assumptions pruned_root_stays_failed_commit.
+Print Assumptions pruned_state_fails_partial.
 Print Assumptions root_is_mpt.
+Print Assumptions prune_dead_fork_refuted.
+Print Assumptions ex_history_round2.
